@@ -36,7 +36,8 @@ def gen_sort_exhaustive(rng, tier):
     for n in range(0, top + 1):
         for tup in itertools.product(range(7), repeat=n):
             xi = ' '.join(str(ALPHA_INT[k]) for k in tup)
-            ops.append(('isort ' + xi).strip())
+            if n <= 6:
+                ops.append(('isort ' + xi).strip())
             ops.append(('hsort_int ' + xi).strip())
             ops.append(('unique ' + xi).strip())
             if n <= full:
